@@ -243,6 +243,8 @@ type Sim struct {
 	Route func(from, to *Node) bool
 	sealed bool
 	stash  []stashed
+	// SysLog: every Accept / Stop the pump executed, in global order (pump_sys.go: the system model runs on it)
+	SysLog []sysRec
 }
 
 type stashed struct {
@@ -573,6 +575,7 @@ func (s *Sim) Deliver(e *Env) Obs {
 	msgs, pan, hung := s.call(n, func() { n.H.Accept(e.Msg) })
 	o := s.observe(n, msgs, pan, 0, hung)
 	n.Obs = append(n.Obs, o)
+	s.SysLog = append(s.SysLog, sysRec{Kind: 0, To: e.To, Msg: e.Msg, Valid: e.Valid, Panics: e.Panics, Tag: e.Tag, ObsIdx: len(n.Obs) - 1})
 	s.enqueue(n, msgs)
 	return o
 }
@@ -596,6 +599,7 @@ func (s *Sim) Stop(id party.ID) Obs {
 	msgs, pan, hung := s.call(n, func() { n.H.Stop() })
 	o := s.observe(n, msgs, pan, 0, hung)
 	n.Obs = append(n.Obs, o)
+	s.SysLog = append(s.SysLog, sysRec{Kind: 1, To: id, ObsIdx: len(n.Obs) - 1})
 	s.enqueue(n, msgs)
 	return o
 }
